@@ -128,6 +128,8 @@ def catalogue_shapes(tier="quick"):
     add("holes_neg_only", lambda r: runs_to_values([(-30, -28), (-20, -20), (-9, -7)]) if signed(r) else None)
     add("holes_both_sides_of_0", lambda r: runs_to_values([(-6, -5), (-1, 1), (7, 9)]) if signed(r) else None)
     add("holes_small_for_inline", lambda r: [1, 3, 4])
+    add("holes_300_singletons", lambda r: list(range(-300, 300, 2)) if r in ("i16", "i32", "i64", "isize", "i128") else None,
+        ["i16", "i32", "i64", "isize", "i128"])
 
     # index arithmetic at the edge of the repr: runs longer than half the type's range, and more
     # variants before a later run than the signed repr can count
